@@ -235,6 +235,44 @@ class ABuf:
     def hex(self):
         return "<abuf>"
 
+    # --- byte order of opaque values (digests, tokens): a fresh integer rank per
+    # distinct description, unconstrained otherwise - "some contents make a > b"
+    # is satisfiable exactly when nothing sorted them.
+    def _rank(self):
+        c = self.canon()
+        if len(c) != 1 or c[0][0] not in "DGL":
+            raise Unsupported("byte-order comparison of a composite abstract buffer")
+        if c[0][0] == "L":
+            return None
+        return rank_of(c[0])
+
+    def _order(self, o, op):
+        if not isinstance(o, ABuf):
+            if isinstance(o, (bytes, bytearray)):
+                o = ABuf(o)
+            else:
+                return NotImplemented
+        ra, rb = self._rank(), o._rank()
+        if ra is None and rb is None:
+            return op(self.canon()[0][1], o.canon()[0][1])
+        if ra is None or rb is None:
+            raise Unsupported("byte-order comparison of literal and abstract bytes")
+        if self == o:
+            return op(0, 0)
+        return op(ra, rb)
+
+    def __lt__(self, o):
+        return self._order(o, lambda a, b: a < b)
+
+    def __le__(self, o):
+        return self._order(o, lambda a, b: a <= b)
+
+    def __gt__(self, o):
+        return self._order(o, lambda a, b: a > b)
+
+    def __ge__(self, o):
+        return self._order(o, lambda a, b: a >= b)
+
     def __repr__(self):
         return "ABuf(%r)" % (self.segs,)
 
@@ -364,3 +402,19 @@ def concretize_buf(buf, files):
         else:
             raise ValueError("cannot concretise segment kind %s" % k)
     return bytes(out)
+
+
+def rank_of(seg):
+    from .core import eng
+    import z3
+    E = eng()
+    ranks = E._ranks
+    for s0, r in ranks:
+        if canon_eq([s0], [seg]):
+            return r
+    r = SymInt(z3.Int("rank_%d" % len(ranks)))
+    for s0, r0 in ranks:
+        E.s.add(r.e != r0.e)
+    ranks.append((seg, r))
+    E._decls.append(("rank_%d" % (len(ranks) - 1), r.e))
+    return r
